@@ -130,7 +130,7 @@ COMPONENTS = [
     Component("exhaustive_small", check, enumerate=enum_small,
               rule="all sequences of <=4 (quick) / <=5 (thorough) points of a 3x3 (2-D) and 2x2x2 (3-D) "
                    "half-integer lattice, with repetition, x 8 exact cones incl. K>m"),
-    Component("random", check, strategy=lambda: st_case(60), quick=2500, thorough=60000,
+    Component("random", check, strategy=lambda: st_case(60), quick=2500, thorough=60000, fuzz_runs=1500,
               rule="random cones (bundled / dyadic / unit-normal K>=m), 1..60 lattice points: ties, chains, duplicates"),
     Component("random_large", check, strategy=lambda: st_case(300), quick=150, thorough=4000,
               rule="as random, up to 300 points"),
